@@ -66,16 +66,28 @@ func (a *Adapter) call(name string, args ...string) error {
 		a.FailAt = 0
 		// every other injected failure is worded like a real backend's, and happens to contain the words the
 		// library uses for "this adapter does not offer the call" ("not implemented"): a failure all the same
-		injected++
-		if injected%2 == 0 {
-			return ErrInjectedWordy
-		}
-		return ErrInjected
+		return nextInjected()
 	}
 	return nil
 }
 
 var injected int
+
+// nextInjected rotates through failure texts as real backends word them; some happen to contain or end in
+// words the library itself uses for special cases ("not implemented", "... cannot be empty"): failures all the same
+func nextInjected() error {
+	injected++
+	switch injected % 4 {
+	case 0:
+		return ErrInjectedWordy
+	case 2:
+		return ErrInjectedEmptyColumn
+	}
+	return ErrInjected
+}
+
+// ErrInjectedEmptyColumn ends like the file adapter's "file path cannot be empty" without being that message.
+var ErrInjectedEmptyColumn = errors.New("casbin_rule row 3: column v1 cannot be empty")
 
 // ErrInjectedWordy is a failure whose text contains "not implemented" without being that message.
 var ErrInjectedWordy = errors.New("backend: DELETE failed: cascading delete is not implemented for table casbin_rule")
@@ -124,7 +136,7 @@ func (a *Adapter) LoadPolicy(m model.Model) error {
 	for i, l := range lines {
 		if a.LoadFailAfter >= 0 && i == a.LoadFailAfter {
 			a.LoadFailAfter = -1
-			return ErrInjected
+			return nextInjected()
 		}
 		if err := persist.LoadPolicyArray(append([]string{l.PType}, l.Rule...), m); err != nil {
 			return err
@@ -135,7 +147,7 @@ func (a *Adapter) LoadPolicy(m model.Model) error {
 	}
 	if a.LoadFailAfter >= 0 && a.LoadFailAfter >= len(a.Lines) {
 		a.LoadFailAfter = -1
-		return ErrInjected
+		return nextInjected()
 	}
 	if a.AfterLoad != nil {
 		f := a.AfterLoad
